@@ -628,8 +628,18 @@ impl Check for C05 {
             8_000
         }
     }
-    fn gen_plan(&self, seed: u64, _idx: u64, _t: bool) -> Value {
+    fn gen_plan(&self, seed: u64, idx: u64, _t: bool) -> Value {
         let mut g = Gen::new(seed, "c05");
+        if idx % 10 == 9 {
+            // the preamble clause for sessions a real Client opens after a scheme was pushed to it:
+            // whole system against a scripted TLS server that reads every preamble (C19's client mode)
+            let mut net = crate::tierb::calm_net(&mut g);
+            net["pipe"]["lat"] = json!([0, 300]);
+            let client_scheme = if g.chance(60) { "default".to_string() } else { crate::checks::c19::gen_scheme_push(&mut g) };
+            let schemes: Vec<String> = (0..g.range(1, 3)).map(|_| crate::checks::c19::gen_scheme_push(&mut g)).collect();
+            return json!({"net": net, "tier": "B", "mode": "client", "default_touched": g.chance(60), "client_scheme": client_scheme, "server_schemes": schemes,
+                "same_scheme": false, "garbage_push": false, "sessions": g.range(2, 4), "payloads": []});
+        }
         let scheme = gen_scheme_small(&mut g);
         let concurrent = g.chance(40);
         let big = g.chance(20);
@@ -646,6 +656,21 @@ impl Check for C05 {
     }
     fn run<'a>(&'a self, plan: &'a Value) -> ScenFut<'a> {
         Box::pin(async move {
+            if plan["tier"] == "B" {
+                if plan["default_touched"].as_bool().unwrap_or(false) {
+                    let _ = PaddingFactory::default();
+                }
+                crate::tierb::reset_process_state().await;
+                let o = crate::checks::c19::run_client(plan).await;
+                // only the preamble clause is this property's business here
+                let mut out = Outcome::ok();
+                for v in o.viols.into_iter().filter(|v| v.sig.starts_with("preamble-padding")) {
+                    out.viol("preamble", format!("later-session:{}", v.sig), v.detail);
+                }
+                out.nontrivial = o.nontrivial;
+                out.summary = o.summary;
+                return out;
+            }
             let mut out = Outcome::ok();
             let scheme = plan["scheme"].as_str().unwrap_or("stop=0").to_string();
             let stop = scheme_stop(&scheme) as usize;
